@@ -14,7 +14,7 @@ import (
 func init() {
 	register(&propDef{
 		id: "C08", level: "other", run: runC08,
-		explanation: "Decided: absence of a history channel. (R1/R2) global-write effect analysis: every package-level variable of the three library packages, every store to it, through it (pointers, maps, slices loaded from it), or via a callee that writes through a pointer derived from it, in any function reachable from Decode/DecodeChained/CheckIntegrity/Encode in the VTA call graph; profile rows additionally by a type-based who-may-write rule. (R3) map-order lint: a range over a map in reachable code may only build maps/sets or append to a slice that is sorted afterwards. (R4) no ambient input (time.Now, math/rand, os.Getenv, os.Args, file reads) in reachable module code. NOT decided: equality with 'a fresh process' as an observation; that is the consequence of R1-R4 assuming the standard library is pure for the calls made. (R6) nothing on Encode's call tree writes a member of a message it was handed: Encode leaves the caller's File as it found it.",
+		explanation: "Decided: absence of a history channel. (R1/R2) global-write effect analysis: every package-level variable of the three library packages, every store to it, through it (pointers, maps, slices loaded from it), or via a callee that writes through a pointer derived from it, in any function reachable from Decode/DecodeChained/CheckIntegrity/Encode in the VTA call graph; profile rows additionally by a type-based who-may-write rule. (R3) map-order lint: a range over a map in reachable code may only build maps/sets or append to a slice that is sorted afterwards. (R4) no ambient input (time.Now, math/rand, os.Getenv, os.Args, file reads) in reachable module code. NOT decided: equality with 'a fresh process' as an observation; that is the consequence of R1-R4 assuming the standard library is pure for the calls made. (R6) nothing on Encode's call tree writes a member of a message it was handed: Encode leaves the caller's File as it found it. No reflect setter reachable from the roots sets through a reflect.Value read out of a package-level variable.",
 		trusted:     []string{"VTA call graph over CHA (x/tools v0.29.0) over-approximates dynamic dispatch", "read-only summaries of the external callees listed in checker/effects.go"},
 	})
 	register(&propDef{
@@ -95,6 +95,7 @@ func runC08(c *Ctx, r *Report) {
 	r.set("reachable_functions_total", len(ri.order))
 	r.set("reachable_module_functions", len(mods))
 	nv := globalHistory(c, r, ri, "C08-R1-global-write")
+	reflectGlobalSets(c, r, ri, "C08-R1-global-write", "the shared value changes, and every later Decode / Encode that reads it sees what this call left there")
 	// which of the package-level accumulators carries state that a later Decode *sees*: one built with a
 	// roll-over width continues its running sum from call to call; one built as a zero value (mask 0)
 	// always yields 0 — written, but without effect on any result (C18's finding, not a history
@@ -435,6 +436,7 @@ func runC09(c *Ctx, r *Report) {
 	mods := ri.module()
 	r.set("reachable_module_functions", len(mods))
 	nv := globalHistory(c, r, ri, "C09-R1-shared-write")
+	reflectGlobalSets(c, r, ri, "C09-R1-shared-write", "two goroutines decoding at the same time write the same memory without synchronisation")
 	r.set("package_variables", nv)
 	r.need("package-level variables examined", nv, 150)
 
@@ -706,4 +708,135 @@ func closureState(c *Ctx, r *Report, rule string) {
 		}
 	}
 	r.set("escaping_closures", n)
+}
+
+// reflectGlobalSets: a reflect.Value read out of package-level storage (a table of prototype values, a
+// cached Value) is an alias of shared memory that the store-based effect analysis does not see; setting
+// through it (Set, SetInt, …, also after Field/Index/Elem) writes that shared memory. Every reflect
+// setter in the functions reachable from the API roots must have a receiver that does not come from
+// a package-level variable: followed backwards through Field/Index/Elem chains, merges, parameters (all
+// call sites) and results of module functions.
+func reflectGlobalSets(c *Ctx, r *Report, ri *reachInfo, rule, consequence string) {
+	memoP := map[*ssa.Parameter]int{} // 1 in progress / no, 2 yes
+	memoF := map[*ssa.Function]int{}
+	var from func(v ssa.Value, depth int) string
+	from = func(v ssa.Value, depth int) string {
+		if depth > 12 {
+			return ""
+		}
+		switch x := v.(type) {
+		case *ssa.UnOp:
+			if x.Op != token.MUL {
+				return ""
+			}
+			root := x.X
+			for i := 0; i < 6; i++ {
+				switch a := root.(type) {
+				case *ssa.IndexAddr:
+					root = a.X
+					continue
+				case *ssa.FieldAddr:
+					root = a.X
+					continue
+				case *ssa.UnOp:
+					if a.Op == token.MUL {
+						root = a.X
+						continue
+					}
+				}
+				break
+			}
+			if g, ok := root.(*ssa.Global); ok && strings.HasPrefix(g.Pkg.Pkg.Path(), modPath) {
+				return g.Pkg.Pkg.Name() + "." + g.Name()
+			}
+		case *ssa.Index:
+			return from(x.X, depth+1)
+		case *ssa.Lookup:
+			return from(x.X, depth+1)
+		case *ssa.Phi:
+			for _, e := range x.Edges {
+				if e != ssa.Value(x) {
+					if g := from(e, depth+1); g != "" {
+						return g
+					}
+				}
+			}
+		case *ssa.Extract:
+			return from(x.Tuple, depth+1)
+		case *ssa.Parameter:
+			if memoP[x] != 0 {
+				return ""
+			}
+			memoP[x] = 1
+			fn := x.Parent()
+			pi := ssaParamIndex(fn, x)
+			if node := c.callGraph().Nodes[fn]; node != nil && pi >= 0 {
+				for _, e := range node.In {
+					if e.Site == nil {
+						continue
+					}
+					cc := e.Site.Common()
+					ai := pi
+					if cc.IsInvoke() {
+						ai = pi - 1
+					}
+					if ai >= 0 && ai < len(cc.Args) {
+						if g := from(cc.Args[ai], depth+1); g != "" {
+							return g
+						}
+					}
+				}
+			}
+		case *ssa.Call:
+			f := x.Common().StaticCallee()
+			if f == nil {
+				return ""
+			}
+			switch f.String() {
+			case "(reflect.Value).Field", "(reflect.Value).Index", "(reflect.Value).Elem", "(reflect.Value).Slice", "(reflect.Value).Addr", "reflect.Indirect", "(reflect.Value).FieldByIndex", "(reflect.Value).MapIndex":
+				return from(x.Common().Args[0], depth+1)
+			}
+			if strings.HasPrefix(fnPkgPath(f), modPath) && len(f.Blocks) > 0 {
+				if memoF[f] != 0 {
+					return ""
+				}
+				memoF[f] = 1
+				for _, b := range f.Blocks {
+					if ret, ok := b.Instrs[len(b.Instrs)-1].(*ssa.Return); ok {
+						for _, res := range ret.Results {
+							if res.Type().String() == "reflect.Value" {
+								if g := from(res, depth+1); g != "" {
+									delete(memoF, f)
+									return g
+								}
+							}
+						}
+					}
+				}
+				delete(memoF, f)
+			}
+		}
+		return ""
+	}
+	n := 0
+	for _, fn := range ri.module() {
+		if !strings.HasPrefix(fnPkgPath(fn), modPath) {
+			continue
+		}
+		idx := 0
+		for _, ci := range allCalls(fn) {
+			f := ci.Common().StaticCallee()
+			if f == nil || f.Signature.Recv() == nil || f.Signature.Recv().Type().String() != "reflect.Value" || !strings.HasPrefix(f.Name(), "Set") {
+				continue
+			}
+			n++
+			idx++
+			for k := range memoP {
+				delete(memoP, k)
+			}
+			g := from(ci.Common().Args[0], 0)
+			r.check(g == "", rule, fmt.Sprintf("%s/reflect-%s#%d", fn.Name(), f.Name(), idx), c.pos(ci.Pos()), "the Value set is not read out of package-level storage", "reflect "+f.Name()+" in "+fn.Name()+" can set through a reflect.Value that was read out of the package-level variable "+g+": "+consequence)
+		}
+	}
+	r.need("reflect setters examined for package-level receivers ("+rule+")", n, 20)
 }
